@@ -9,7 +9,7 @@ from ..mono import Mono, V
 from ..pats import Pats
 from ..src import call_name, stmt_key, unparse
 from .. import tables
-from .c01 import dispatch_arms
+from .c01 import dispatch_arms, score_roles
 
 LEVEL = 'other'
 ATH = 'athlib/athlon_score.py'
@@ -108,12 +108,14 @@ def athlon(ctx, repo):
     if arms is None:
         raise AnalysisError('score(): dispatch chain not found')
     mark = score.args.args[2].arg
-    facts = {"coeffs['A']": V('c', '+'), "coeffs['X']": V('c', '+'), "coeffs['Z']": V('c', '?'), 'age_factor': V('c', '+')}
+    RL = score_roles(score)
+    co, af = RL['coeffs'], RL['age']
+    facts = {"%s['A']" % co: V('c', '+'), "%s['X']" % co: V('c', '+'), "%s['Z']" % co: V('c', '?'), af: V('c', '+')}
     for kind, body in arms.items():
         m = Mono(mark, facts)
-        m.env['age_factor'] = V('c', '+')
+        m.env[af] = V('c', '+')
         m.run(body)
-        res = m.env.get('points')
+        res = m.env.get(RL['result'])
         if res is None:
             raise AnalysisError('score(): the %s arm does not define points' % kind)
         want = 'd' if kind == 'time' else 'u'
@@ -230,7 +232,16 @@ def tyrving(ctx, repo):
     if rp is None:
         raise AnalysisError('anchor vanished: race_points')
     perfn = rp.args.args[2].arg
-    facts = {'multiplier': V('c', '+'), 'dist': V('c', '+'), 'base_perf': V('c', '?'), 'self.timing_kind': V('c', '?')}
+    facts = {'self.timing_kind': V('c', '?')}
+    for n in rp.body:
+        if isinstance(n, ast.Assign) and isinstance(n.targets[0], ast.Tuple) and ast.unparse(n.value) == 'self.args' and len(n.targets[0].elts) == 3:
+            dn, mn_, yn = [x.id for x in n.targets[0].elts]
+            facts[dn] = V('c', '+')
+            facts[mn_] = V('c', '+')
+        if isinstance(n, ast.Assign) and isinstance(n.value, ast.Call) and call_name(n.value) == 'get_base_perf' and isinstance(n.targets[0], ast.Name):
+            facts[n.targets[0].id] = V('c', '?')
+    if len(facts) < 4:
+        raise AnalysisError('race_points: cannot identify distance / multiplier / base performance')
     m = Mono(perfn, facts)
     rets = m.run(rp.body)
     if len(rets) != 1:
@@ -239,8 +250,10 @@ def tyrving(ctx, repo):
     if not (rets[0][0].lb is not None and rets[0][0].lb >= 0):
         ctx.finding('TYR', '%s::TyrvingCalculator.race_points::non-negative' % TYR, TYR, rets[0][1].lineno, 'race points are not clamped at 0')
     # hand timing: increments are constants >= 0 and are added to the time
-    incs = [n for n in ast.walk(rp) if isinstance(n, ast.Assign) and ast.unparse(n.targets[0]) == 'inc']
-    adds = [n for n in ast.walk(rp) if isinstance(n, ast.AugAssign) and ast.unparse(n.value) == 'inc']
+    adds = [n for n in ast.walk(rp) if isinstance(n, ast.AugAssign) and isinstance(n.value, ast.Name)
+            and isinstance(getattr(n, '_parent', None), ast.If) and 'manual' in ast.unparse(n._parent.test)]
+    incn = adds[0].value.id if adds else None
+    incs = [n for n in ast.walk(rp) if isinstance(n, ast.Assign) and incn and ast.unparse(n.targets[0]) == incn]
     consts = [c.value for i in incs for c in ast.walk(i.value) if isinstance(c, ast.Constant) and isinstance(c.value, (int, float))
               and not isinstance(getattr(c, '_parent', None), (ast.Tuple, ast.List, ast.Compare))]
     in_manual = all('manual' in ast.unparse(getattr(a, '_parent', None).test) for a in adds if isinstance(getattr(a, '_parent', None), ast.If))
@@ -253,7 +266,13 @@ def tyrving(ctx, repo):
     # jump
     jp = meths.get('jump_points')
     perfn = jp.args.args[2].arg
-    m = Mono(perfn, {'multiplier': V('c', '+'), 'base_perf': V('c', '?')})
+    jfacts = {}
+    for n in jp.body:
+        if isinstance(n, ast.Assign) and isinstance(n.targets[0], ast.Tuple) and ast.unparse(n.value) == 'self.args' and len(n.targets[0].elts) == 2:
+            jfacts[n.targets[0].elts[0].id] = V('c', '+')
+        if isinstance(n, ast.Assign) and isinstance(n.value, ast.Call) and call_name(n.value) == 'get_base_perf' and isinstance(n.targets[0], ast.Name):
+            jfacts[n.targets[0].id] = V('c', '?')
+    m = Mono(perfn, jfacts)
     rets = m.run(jp.body)
     if len(rets) != 1:
         raise AnalysisError('jump_points: expected one return')
@@ -386,23 +405,44 @@ def sportshall(ctx, repo):
         ctx.ok('SH', 'all %d columns ordered (%d cells), increments non-negative' % (len(db), n_cells))
     # beyond-table arm: points = max_points + steps * incpoints with steps = floor(excess / increment)
     mod = repo.module(SH)
-    for fname, better in (('score_high_event', 'dperf - max_perf'), ('score_low_event', 'max_perf - dperf')):
+    for fname, high in (('score_high_event', True), ('score_low_event', False)):
         fn = mod.func(fname)
-        ex = [n for n in ast.walk(fn) if isinstance(n, ast.Assign) and ast.unparse(n.targets[0]) == 'excess']
+        dperf = fn.args.args[0].arg
+        # the top-of-table mark: the Decimal built from the last table entry
+        tops = [n.targets[0].id for n in ast.walk(fn) if isinstance(n, ast.Assign) and isinstance(n.value, ast.Call) and call_name(n.value) == 'Decimal'
+                and isinstance(n.targets[0], ast.Name) and isinstance(n.value.args[0], ast.Name)]
+        if not tops:
+            raise AnalysisError('%s: top-of-table Decimal not found' % fname)
+        top = tops[0]
+        better = ('%s - %s' % (dperf, top)) if high else ('%s - %s' % (top, dperf))
+        # excess: the name that is floor-divided by the increment (or passed through float() and divided)
+        exn = None
+        for n in ast.walk(fn):
+            if isinstance(n, ast.BinOp) and isinstance(n.op, (ast.FloorDiv, ast.Div)) and 'increment' in ast.unparse(n.right):
+                nm = [x.id for x in ast.walk(n.left) if isinstance(x, ast.Name) and x.id not in ('float', 'Decimal')]
+                if nm:
+                    exn = nm[0]
+        ex = [n for n in ast.walk(fn) if isinstance(n, ast.Assign) and exn and ast.unparse(n.targets[0]) == exn]
         if ex and ast.unparse(ex[0].value) == better:
             ctx.ok('SH', '%s: excess = %s' % (fname, better))
         else:
             ctx.finding('SH', '%s::%s::excess orientation' % (SH, fname), SH, fn.lineno,
-                        'beyond the table %s computes excess as %s, not %s' % (fname, unparse(ex[0].value) if ex else '?', better))
-        pts = [n for n in ast.walk(fn) if isinstance(n, ast.Assign) and ast.unparse(n.targets[0]) == 'points' and 'excess_points' in ast.unparse(n.value)]
-        if pts and ast.unparse(pts[0].value) in ('max_points + excess_points', 'excess_points + max_points'):
-            ctx.ok('SH', '%s: points beyond the table = max_points + excess_points' % fname)
+                        'beyond the table %s computes the excess as %s, not %s (mark beyond the top of the table)' % (
+                            fname, unparse(ex[0].value) if ex else '?', better))
+        # points beyond the table = top points + steps * incpoints
+        sums = [n for n in ast.walk(fn) if isinstance(n, ast.Assign) and isinstance(n.value, ast.BinOp) and isinstance(n.value.op, ast.Add)
+                and isinstance(n.value.left, ast.Name) and isinstance(n.value.right, ast.Name) and n.lineno > (ex[0].lineno if ex else 0)]
+        subs = [n for n in ast.walk(fn) if isinstance(n, ast.Assign) and isinstance(n.value, ast.BinOp) and isinstance(n.value.op, ast.Sub)
+                and isinstance(n.value.left, ast.Name) and isinstance(n.value.right, ast.Name) and n.lineno > (ex[0].lineno if ex else 0)
+                and n.lineno < (ex[0].lineno if ex else 0) + 14]
+        if sums and not subs:
+            ctx.ok('SH', '%s: points beyond the table are added to the top points' % fname)
         else:
-            ctx.finding('SH', '%s::%s::beyond-table points' % (SH, fname), SH, fn.lineno, 'beyond-table points are not max_points + excess_points')
-        # comparison orientation of the search
-        first = [n for n in fn.body if isinstance(n, ast.If) and 'max_perf' in ast.unparse(n.test)]
-        want = 'dperf > max_perf' if fname == 'score_high_event' else 'dperf < max_perf'
-        if first and ast.unparse(first[0].test) == want:
+            ctx.finding('SH', '%s::%s::beyond-table points' % (SH, fname), SH, fn.lineno, 'beyond-table points are not top points + extra points')
+        first = [n for n in fn.body if isinstance(n, ast.If) and top in ast.unparse(n.test)]
+        want = ('%s > %s' % (dperf, top)) if high else ('%s < %s' % (dperf, top))
+        alt = ('%s < %s' % (top, dperf)) if high else ('%s > %s' % (top, dperf))
+        if first and ast.unparse(first[0].test) in (want, alt):
             ctx.ok('SH', '%s: beyond-table test %s' % (fname, want))
         else:
             ctx.finding('SH', '%s::%s::beyond-table test' % (SH, fname), SH, fn.lineno, 'the beyond-table test is not %s' % want)
